@@ -339,8 +339,11 @@ def received_pdus_can_be_serialised_again(chk, repo: Repo) -> None:
     ev = SerEval(repo)
     masks = dispatch_masks(repo)
     n = 0
+    # a frame built from a telegram parses back to the same transport PDU only if the APDU buffer the frame writes its
+    # transport bits into is the encoder's own (a shared one keeps the bits of the frame serialised before)
+    stale = encoders_return_fresh_buffers(chk, repo, [c for c in service_classes(repo) if not is_stub(repo, c)])
     for c in service_classes(repo):
-        if is_stub(repo, c):
+        if is_stub(repo, c) or c.name in stale:
             continue
         fk, tk = c.methods["from_knx"], c.methods["to_knx"]
         mask, codes = masks.get(c.name, (0x3FF, set()))
